@@ -65,6 +65,13 @@ var basePoint = [32]byte{9, 0, 0, 0, 0, 0, 0, 0, 0, 0, 0, 0, 0, 0, 0, 0, 0, 0, 0
 // will return an error.
 func ScalarMult(dst, in, base *[32]byte) {
 	xcurve.ScalarMult(dst, in, base)
+
+	// The assembly backend of the pinned golang.org/x/crypto does not fully
+	// reduce results congruent to 0..18 (it returns them plus 2^255-19),
+	// serialize the canonical representative as RFC 7748 requires.
+	var u curve25519.Bignum25519
+	curve25519.Expand(&u, dst[:])
+	curve25519.Contract(dst[:], &u)
 }
 
 // ScalarBaseMult sets dst to the product in*base where dst and base are
